@@ -76,7 +76,10 @@ type (
 	}
 )
 
-func (v *NumVal) IsInt() bool { return v.V == math.Trunc(v.V) }
+// IsInt reports whether the number is an integer that Int can represent;
+// integral values of magnitude >= 2^63 and the infinities are not (int64(v)
+// is not defined for them: every one of them became -9223372036854775808)
+func (v *NumVal) IsInt() bool { return v.V == math.Trunc(v.V) && math.Abs(v.V) < 1<<63 }
 func (v *NumVal) Int() int64  { return int64(v.V) }
 
 func (v *Val) Bool() *BoolVal   { return (*BoolVal)(unsafe.Pointer(v)) }
